@@ -306,3 +306,71 @@ class ArgumentTransformTables(Contract):
         sha = hashlib.sha256(src.encode()).hexdigest()
         cx = type("DataCx", (), dict(axioms=[], hints=[], notes=[], distinct_consts_axiom=lambda self: []))()
         return cx, obs, dict(sha=sha, paths=1, lines=(1, None))
+
+
+@register
+class WrapperEquals(Contract):
+    """TraitChangeNotifyWrapper.equals(handler): how on_trait_change(handler, ..., remove=True) finds the wrapper to take out.
+    True exactly for: the wrapper itself; a bound method with the SAME NAME on the SAME (still alive) owner as the method listener
+    this wrapper dispatches to; a plain callable equal to the function this wrapper holds (only for function listeners).
+    Anything else is False -- in particular a method of another object with the same name, a method whose owner was collected,
+    and a function compared with a method listener."""
+    path = PATH
+    qualname = "TraitChangeNotifyWrapper.equals"
+    properties = ("C02", "C16")
+    class_paths = (PATH,)
+    overloads = ("bound-method-argument", "plain-callable-argument", "the-wrapper-itself",
+                 "bound-method-argument/function-listener", "plain-callable-argument/method-listener")
+    assumptions = ("A-PY", "A-EQ on plain callables", "type(h) is MethodType / h.__self__ / h.__name__ of the argument are opaque attributes")
+
+    def configure(self, cx, I, ov):
+        NONE_T = cx.const("None").t
+        self.arg = z3.Const("handler_argument", Val)
+        self.arg_owner, self.my_owner, self.my_func = z3.Consts("argument_owner my_owner my_function", Val)
+        self.arg_name, self.my_name = z3.String("argument_method_name"), z3.String("my_method_name")
+        self.alive, self.method_listener = z3.Bool("my_owner_alive"), z3.Bool("i_am_a_method_listener")
+        cx.module_globals["MethodType"] = cx.const("MethodType")
+        is_method = ov.startswith("bound-method-argument")
+        cx.module_globals["type"] = VFunc("opaque", name="type", apply=lambda I2, a, kw, st, k: k(
+            cx.const("MethodType") if (is_method and isinstance(a[0], VElem) and a[0].t.eq(self.arg)) else VElem(z3.Const("some_other_type", Val)), st))
+        cx.elem_attrs["__self__"] = lambda I2, o, st, k: k(VElem(self.arg_owner), st)
+        cx.elem_attrs["__name__"] = lambda I2, o, st, k: k(VStr(self.arg_name), st)
+
+        def call_hook(I2, fv, args, kwargs, st, k):
+            if isinstance(fv, VConst) and fv.name == "my-weakref" and not args:
+                return I2.cx.branch(st, self.alive, lambda s: k(VElem(self.my_owner), s), lambda s: k(NONE, s))
+            return None
+        cx.call_hook = call_hook
+
+    def setup(self, cx, I, ov):
+        NONE_T = cx.const("None").t
+        st = St().assume(self.arg_owner != NONE_T, self.my_owner != NONE_T, z3.Const("some_other_type", Val) != cx.const("MethodType").t)
+        self_ref = VRef(cx.new_oid())
+        # a method listener has a name and a weak reference to its owner; a function listener has name None and holds the function
+        outs = []
+        self.self_ref = self_ref
+        fields_m = {"name": VStr(self.my_name), "object": cx.const("my-weakref")}
+        fields_f = {"name": NONE, "handler": VElem(self.my_func), "object": NONE}
+        self.variant = "function" if ov in ("plain-callable-argument", "bound-method-argument/function-listener") else "method"
+        # both listener kinds are covered for every argument kind through the symbolic flag below (two heap shapes = two runs)
+        st = st.put(self_ref.oid, HObj("obj", None, "TraitChangeNotifyWrapper", fields_m if self.variant == "method" else fields_f))
+        arg = self_ref if ov == "the-wrapper-itself" else VElem(self.arg)
+        st = st.assume(cx.ref_val(self_ref) != self.arg)       # in the two other overloads the argument is another object
+        return st, [self_ref, arg], {}, dict(witness={})
+
+    def post(self, cx, I, ov, info, kind, payload, st):
+        if kind == "raise":
+            return [("exc-free", z3.BoolVal(False), dict(exception="%s %r" % (payload.cname or payload.sym, payload.origin)))]
+        r = payload.t if isinstance(payload, VBool) else None
+        if r is None:
+            return [("post:returns-a-boolean", z3.BoolVal(False))]
+        if ov == "the-wrapper-itself":
+            return [("post:a-wrapper-equals-itself", r)]
+        if "/" in ov:
+            return [("post:a-method-never-matches-a-function-listener-nor-a-function-a-method-listener", z3.Not(r))]
+        if ov == "bound-method-argument":
+            return [("post:a-bound-method-matches-iff-same-name-on-the-same-live-owner", r == z3.And(self.arg_name == self.my_name, self.alive, self.arg_owner == self.my_owner))]
+        return [("post:a-plain-callable-matches-iff-equal-to-the-function-held", r == (self.arg == self.my_func))]
+
+    def covers(self, cx, ov, info):
+        return [("answers", lambda k, p, s: k == "return")]
